@@ -275,6 +275,10 @@ func (l *lexer) acceptWS() {
 		} else if strings.HasPrefix(l.input[l.pos:], str_comment_inline_start) {
 			for {
 				l.next()
+				if l.pos >= len(l.input) {
+					// comment ends with the file
+					break
+				}
 				if l.input[l.pos] == '\n' {
 					l.pos++
 					break
@@ -343,6 +347,10 @@ func (l *lexer) acceptRun(ttype int, valid string) bool {
 
 func (l *lexer) acceptString() bool {
 	begin := l.next()
+	if begin == eof {
+		// nothing left, otherwise an empty string is found over and over at the end of input
+		return false
+	}
 	isDblQuote := begin == char_doublequote
 	isSglQuote := begin == char_singlequote
 	isSpaceDelim := !isSglQuote && !isDblQuote
